@@ -100,8 +100,9 @@ def translate(repo):
     m = re.match(
         r"^\s*CTypeDescrObject \*ct = cf->cf_type;(?P<decl>.*?)"
         r"if \((?P<guard>[^{}]*?)\) \{\s*return convert_from_object\(data, ct, init\);\s*\}\s*"
-        r"value = PyLong_AsLongLong\(init\);\s*"
+        r"value = (?P<conv>PyLong_AsLongLong\(init\)|PyLong_AsLongLongAndOverflow\(init, &overflow\));\s*"
         r"if \(value == -1 && PyErr_Occurred\(\)\)\s*return -1;\s*"
+        r"(?P<sat>if \(overflow != 0\) \{\s*value = overflow > 0 \? PY_LLONG_MAX : PY_LLONG_MIN;\s*\}\s*)?"
         r"if \(ct->ct_flags & CT_PRIMITIVE_SIGNED\) \{(?P<sb>[^{}]*?)"
         r"if \(fmax == 0\)\s*fmax = 1;\s*\}\s*"
         r"else \{(?P<ub>[^{}]*?)\}\s*"
@@ -118,6 +119,12 @@ def translate(repo):
     bounds_unsigned = _assigns(m.group("ub"), ["fmin", "fmax"], tw)
     cond = _expr(_norm(m.group("cond")))
     tail = _assigns(m.group("tail"), ["rawmask", "rawvalue", "rawfielddata", "rawfielddata"], tw)
+    if m.group("conv").startswith("PyLong_AsLongLong("):
+        if m.group("sat"):
+            raise TranslateError("saturation without overflow flag")
+        value_conv = "VCAsLongLong"
+    else:
+        value_conv = "(VCAndOverflow %s)" % ("true" if m.group("sat") else "false")
     if tw.get("value") != "TLL":
         raise TranslateError("`value` is not a PY_LONG_LONG")
 
@@ -128,7 +135,7 @@ def translate(repo):
          "   Names: cf_cf_bitsize / cf_cf_bitshift = cf->cf_bitsize / cf->cf_bitshift (short, promoted to int);",
          "   raw_signed / raw_unsigned = read_raw_signed_data / read_raw_unsigned_data(data, ct->ct_size). *)",
          "From Coq Require Import ZArith String List.",
-         "From Cffi Require Import C03.CExpr.",
+         "From Cffi Require Import C03.CExpr C02.IR.",
          "Import ListNotations.",
          "Open Scope Z_scope.",
          "Open Scope string_scope.",
@@ -141,6 +148,9 @@ def translate(repo):
          prog("read_unsigned_prog", read_unsigned, "unsigned branch; the result is `value`"),
          prog("bounds_signed_prog", bounds_signed, "signed fmin/fmax (followed by `if (fmax == 0) fmax = 1;`)"),
          prog("bounds_unsigned_prog", bounds_unsigned, "unsigned fmin/fmax"),
+         "(* how `value` is obtained from the Python object *)",
+         "Definition write_value_conv : value_conv := %s." % value_conv,
+         "",
          "(* `if (COND) { ... OverflowError ... return -1; }` *)",
          "Definition range_cond : cexpr := %s." % cond,
          "",
